@@ -249,8 +249,28 @@ def _eig_symbols(m, tag, hermitian=True):
     return w, decomp, key
 
 
+def _numeric(m):
+    out = _np.empty(m.shape, dtype=complex)
+    fo, fi = out.reshape(-1), m.a.reshape(-1)
+    for k in range(fi.shape[0]):
+        fo[k] = fi[k].evalf({})
+    return out
+
+
+def _from_numeric(x, dt):
+    out = NP.zeros(x.shape, dt)
+    fo, fi = out.a.reshape(-1), x.reshape(-1)
+    for k in range(fi.shape[0]):
+        v = complex(fi[k])
+        fo[k] = Sym.const(v if dt == _C else v.real)
+    return out
+
+
 def eigvalsh(m, UPLO="L"):
     m = _A(m)
+    if _is_concrete(m):
+        # concrete input: the library is evaluated numerically (double precision), documented as such
+        return _from_numeric(_np.linalg.eigvalsh(_numeric(m)), _F)
     w, _, _ = _eig_symbols(m, "eigh")
     _assume_eigh(m, w, None)
     return w
@@ -258,6 +278,9 @@ def eigvalsh(m, UPLO="L"):
 
 def eigh(m, UPLO="L"):
     m = _A(m)
+    if _is_concrete(m):
+        w, V = _np.linalg.eigh(_numeric(m))
+        return _from_numeric(w, _F), _from_numeric(V, _C if m.dt == _C else _F)
     n = m.shape[0]
     w, decomp, key = _eig_symbols(m, "eigh")
     V = NP.zeros((n, n), _C if m.dt == _C else _F)
